@@ -8,11 +8,12 @@ Record sops (F : Type) := mkOps {
   s0 : F; s1 : F; s2 : F;
   sadd : F -> F -> F; ssub : F -> F -> F; smul : F -> F -> F; sdiv : F -> F -> F;
   sneg : F -> F; ssqrt : F -> F; scos : F -> F; ssin : F -> F;
-  sltb : F -> F -> bool
+  sltb : F -> F -> bool;
+  sis0 : F -> bool            (* x == 0.0 *)
 }.
 Arguments s0 {F}. Arguments s1 {F}. Arguments s2 {F}. Arguments sadd {F}. Arguments ssub {F}.
 Arguments smul {F}. Arguments sdiv {F}. Arguments sneg {F}. Arguments ssqrt {F}.
-Arguments scos {F}. Arguments ssin {F}. Arguments sltb {F}.
+Arguments scos {F}. Arguments ssin {F}. Arguments sltb {F}. Arguments sis0 {F}.
 
 Inductive gate1 (F : Type) := GH | GX | GY | GZ | GRx (t : F) | GRy (t : F) | GRz (t : F).
 Arguments GH {F}. Arguments GX {F}. Arguments GY {F}. Arguments GZ {F}.
@@ -113,20 +114,30 @@ Section Sim.
     fold_left (fun acc ka => if Nat.testbit (fst ka) q then sadd O acc (cnorm2 (snd ka)) else acc)
               (indexed st) (s0 O).
 
+  Definition prob0 (q : nat) (st : list C) : F :=
+    fold_left (fun acc ka => if Nat.testbit (fst ka) q then acc else sadd O acc (cnorm2 (snd ka)))
+              (indexed st) (s0 O).
+
+  (* the sampled branch, never one without amplitude; its weight *)
+  Definition pick_branch (r p0 p1 : F) : bool :=
+    let b := sltb O r p1 in if sis0 O (if b then p1 else p0) then negb b else b.
+
   Definition collapse (q : nat) (res : bool) (nrm : F) (st : list C) : list C :=
     map (fun ka => if Bool.eqb (Nat.testbit (fst ka) q) res then cdivr (snd ka) nrm else c0) (indexed st).
 
   Definition measure_state (q : nat) (r : F) (st : list C) : bool * list C :=
     let p1 := prob1 q st in
-    let res := sltb O r p1 in
-    let nrm := ssqrt O (if res then p1 else ssub O (s1 O) p1) in
+    let p0 := prob0 q st in
+    let res := pick_branch r p0 p1 in
+    let nrm := ssqrt O (if res then p1 else p0) in
     (res, collapse q res nrm st).
 
   (* repaired reset: sample the branch, keep it normalised, move it to bit q = 0 *)
   Definition reset_state (q : nat) (r : F) (st : list C) : bool * list C :=
     let p1 := prob1 q st in
-    let one := sltb O r p1 in
-    let nrm := ssqrt O (if one then p1 else ssub O (s1 O) p1) in
+    let p0 := prob0 q st in
+    let one := pick_branch r p0 p1 in
+    let nrm := ssqrt O (if one then p1 else p0) in
     (one, map (fun ka => if Nat.testbit (fst ka) q then c0
                          else cdivr (if one then nth (fst ka + 2 ^ q) st c0 else snd ka) nrm) (indexed st)).
 
